@@ -673,7 +673,10 @@ static int drv_watch(int argc, char** argv) {
   std::mutex tl_mu;
   uint64_t nsig = 0;
   {
-    auto svc = Oomd::FsDropInService::create(dir, *base, *engine, dd);
+    if (scn.get("missing_at_start", false).asBool()) {
+      rmtree(dd); // the drop-in directory does not exist yet when the service starts; a later "mkdir" op creates it
+    }
+    auto svc = Oomd::FsDropInService::create(dir, *base, *engine, scn.get("trailing_slash", false).asBool() ? dd + "/" : dd);
     if (!svc) {
       out["err"] = "service create failed";
       save_json(argv[1], out);
@@ -731,6 +734,15 @@ static int drv_watch(int argc, char** argv) {
           ::unlink(f.c_str());
         } else if (o == "rmdir_mkdir") {
           rmtree(dd);
+          seeded_yield(rng, 500);
+          usleep(op.get("gap_us", 0).asInt());
+          mkdirs(dd);
+        } else if (o == "mkdir") {
+          mkdirs(dd);
+        } else if (o == "mvdir_mkdir") {
+          // the watched directory itself is renamed away (IN_MOVE_SELF) and a new, empty one takes its name
+          std::string old = dir + "/old." + std::to_string(rng());
+          ::rename(dd.c_str(), old.c_str());
           seeded_yield(rng, 500);
           usleep(op.get("gap_us", 0).asInt());
           mkdirs(dd);
